@@ -1,5 +1,6 @@
 """R16 EQ-HASH, R17 SLOT-COVER (C02, C11, C14, C16, C09)."""
 import ast
+import re
 
 from ..fold import NotConst, Symbol
 from ..model import AnalysisError, U, walk_no_nested, parent, ancestors
@@ -197,6 +198,68 @@ def r16_eq_hash(ctx):
               sorted(set(projs.values())),
               "ordering methods use different projections %s: <, <=, >, >= "
               "are not mutually consistent" % projs, P11)
+    # equality is an equivalence that the hash respects only if lengths are
+    # compared with `==`: a projection handed to anything else (a tolerance
+    # test such as math.isclose, rounding, a difference) makes == coarser
+    # than the hash and intransitive
+    eq0 = dur.methods.get("__eq__")
+    if eq0 is not None:
+        loose = []
+        for n in walk_no_nested(eq0.node):
+            if isinstance(n, ast.Call) and isinstance(
+                    n.func, ast.Attribute) and n.func.attr in canon and \
+                    not n.args:
+                par = parent(n)
+                if isinstance(par, ast.Compare) and len(
+                        par.ops) == 1 and isinstance(
+                            par.ops[0], (ast.Eq, ast.NotEq)):
+                    continue
+                if isinstance(par, ast.Assign) and len(
+                        par.targets) == 1 and isinstance(
+                            par.targets[0], ast.Name):
+                    # a temporary: every use must be an ==/!= operand
+                    nm = par.targets[0].id
+                    uses = [x for x in walk_no_nested(eq0.node)
+                            if isinstance(x, ast.Name) and x.id == nm and
+                            isinstance(x.ctx, ast.Load)]
+                    if all(isinstance(parent(x), ast.Compare) and isinstance(
+                            parent(x).ops[0], (ast.Eq, ast.NotEq))
+                            for x in uses):
+                        continue
+                loose.append(U(par)[:70])
+        rep.check(not loose, rule, ctx.fkey(eq0, None, "exact-equality"),
+                  eq0.loc(),
+                  "Duration.__eq__ compares lengths with == only",
+                  "Duration.__eq__ passes a length to %s instead of "
+                  "comparing it with ==: equal durations may then hash "
+                  "differently and order strictly, and == is not "
+                  "transitive" % loose, P11)
+    # the projection the orderings compare lexicographically is canonical:
+    # its seconds component is the floor remainder of the signed total
+    gds = dur.methods.get("get_days_and_seconds")
+    if gds is not None:
+        from ..dtable import explore
+        finals = set()
+        for p_ in explore(gds.node.body):
+            if p_.outcome == "return" and isinstance(
+                    p_.value, ast.Tuple) and len(p_.value.elts) == 2:
+                finals.add(U(p_.value.elts[1]).replace(" ", ""))
+        good_rem = [t for t in finals if (
+            re.fullmatch(r"divmod\((.*),CALENDAR\.SECONDS_IN_DAY\)\[1\]", t)
+            or re.fullmatch(r"\(?(.*)\)?%CALENDAR\.SECONDS_IN_DAY", t))
+            and "abs(" not in t]
+        good_rem += [t for t in finals if t == "0"]     # the week form
+        if finals:
+            rep.check(len(good_rem) == len(finals), rule,
+                      ctx.fkey(gds, None, "canonical-remainder"), gds.loc(),
+                      "get_days_and_seconds returns the floor remainder of "
+                      "the signed second count (0 <= seconds < one day): one "
+                      "tuple per length",
+                      "get_days_and_seconds returns %s as its seconds: not "
+                      "the floor remainder of the signed total, so one "
+                      "length has several (days, seconds) spellings and the "
+                      "lexicographic orderings disagree with ==" %
+                      sorted(finals - set(good_rem)), P11)
     # eq/hash agreement
     eq, hs = dur.methods.get("__eq__"), dur.methods.get("__hash__")
     if eq is not None and hs is not None:
